@@ -84,9 +84,13 @@ func (p *Prog) inlineOverlay() (map[string][]byte, []string) {
 	var notes []string
 	inlinedAll := map[*Func]int{}
 	for fn, js := range byFile {
-		src, err := os.ReadFile(fn)
-		if err != nil {
-			continue
+		src := p.Overlay[fn]
+		if src == nil {
+			b, err := os.ReadFile(fn)
+			if err != nil {
+				continue
+			}
+			src = b
 		}
 		fset := token.NewFileSet()
 		file, err := parser.ParseFile(fset, fn, src, parser.ParseComments)
@@ -124,6 +128,9 @@ func (p *Prog) inlineOverlay() (map[string][]byte, []string) {
 		}
 		fn := p.Fset.Position(f.Decl.Pos()).Filename
 		src := overlay[fn]
+		if src == nil {
+			src = p.Overlay[fn]
+		}
 		if src == nil {
 			b, err := os.ReadFile(fn)
 			if err != nil {
@@ -163,19 +170,7 @@ func (p *Prog) inlineOverlay() (map[string][]byte, []string) {
 		}
 		if removed {
 			// imports only the removed helper used would now be unused
-			for _, im := range append([]*ast.ImportSpec{}, file.Imports...) {
-				path := strings.Trim(im.Path.Value, `"`)
-				if im.Name != nil && (im.Name.Name == "_" || im.Name.Name == ".") {
-					continue
-				}
-				if !astutil.UsesImport(file, path) {
-					if im.Name != nil {
-						astutil.DeleteNamedImport(fset, file, im.Name.Name, path)
-					} else {
-						astutil.DeleteImport(fset, file, path)
-					}
-				}
-			}
+			p.pruneImports(fset, file)
 			var buf bytes.Buffer
 			if err := format.Node(&buf, fset, file); err == nil {
 				overlay[fn] = buf.Bytes()
@@ -340,6 +335,110 @@ func (p *Prog) inlineOneImpl(fset *token.FileSet, file *ast.File, off int, j inl
 	// callee facts
 	sig := callee.Obj.Type().(*types.Signature)
 	nres := sig.Results().Len()
+	// A call nested in a larger expression of a simple statement is hoisted:
+	//   S(... H(args) ...)  ->  tmp := H(args); S(... tmp ...)
+	// provided nothing with side effects is evaluated before it within S.
+	switch parent.(type) {
+	case *ast.ExprStmt, *ast.GoStmt, *ast.ReturnStmt, *ast.AssignStmt:
+		if as, isAs := parent.(*ast.AssignStmt); isAs && (len(as.Rhs) != 1 || ast.Unparen(as.Rhs[0]) != ast.Expr(call)) {
+			// H is one of several right-hand sides: hoist
+		} else if rs, isRet := parent.(*ast.ReturnStmt); isRet && len(rs.Results) != 1 {
+			// return a, H(): hoist
+		} else {
+			goto direct
+		}
+	}
+	if nres == 1 {
+		// nearest enclosing statement that sits in a statement list
+		var stmt ast.Stmt
+		for i := len(path) - 2; i >= 0; i-- {
+			if st, ok := path[i].(ast.Stmt); ok {
+				stmt = st
+				if i > 0 {
+					switch path[i-1].(type) {
+					case *ast.BlockStmt, *ast.CaseClause, *ast.CommClause:
+					default:
+						stmt = nil
+					}
+				}
+				break
+			}
+		}
+		okHoist := stmt != nil
+		switch st := stmt.(type) {
+		case *ast.ExprStmt, *ast.AssignStmt, *ast.ReturnStmt, *ast.SendStmt:
+		case *ast.IfStmt:
+			// only from the condition of an if without init
+			in := false
+			ast.Inspect(st.Cond, func(n ast.Node) bool {
+				if n == ast.Node(call) {
+					in = true
+				}
+				return true
+			})
+			if st.Init != nil || !in {
+				okHoist = false
+			}
+		default:
+			okHoist = false
+		}
+		if okHoist {
+			// nothing impure may be evaluated before the call inside stmt
+			impure := false
+			ast.Inspect(stmt, func(n ast.Node) bool {
+				if n == nil || impure {
+					return false
+				}
+				if _, isLit := n.(*ast.FuncLit); isLit {
+					return false
+				}
+				if n.Pos() >= call.Pos() {
+					return true
+				}
+				switch x := n.(type) {
+				case *ast.CallExpr:
+					if x.End() <= call.Pos() { // evaluated before
+						impure = true
+					}
+				case *ast.UnaryExpr:
+					if x.Op == token.ARROW && x.End() <= call.Pos() {
+						impure = true
+					}
+				case *ast.BinaryExpr:
+					// short-circuit operators make evaluation of the call conditional
+					if (x.Op == token.LAND || x.Op == token.LOR) && x.Y.Pos() <= call.Pos() && call.End() <= x.Y.End() {
+						impure = true
+					}
+				}
+				return true
+			})
+			ts := p.typeText(j.caller, sig.Results().At(0).Type())
+			if !impure && ts != "" {
+				if te, err := parser.ParseExpr(ts); err == nil {
+					tmp := "hoisted" + suffix
+					decl := &ast.DeclStmt{Decl: &ast.GenDecl{Tok: token.VAR, Specs: []ast.Spec{&ast.ValueSpec{Names: []*ast.Ident{ast.NewIdent(tmp)}, Type: te}}}}
+					assign := &ast.AssignStmt{Lhs: []ast.Expr{ast.NewIdent(tmp)}, Tok: token.ASSIGN, Rhs: []ast.Expr{call}}
+					// replace the call by the temporary inside stmt
+					replaced := false
+					astutil.Apply(stmt, func(c *astutil.Cursor) bool {
+						if c.Node() == ast.Node(call) && !replaced {
+							c.Replace(ast.NewIdent(tmp))
+							replaced = true
+							return false
+						}
+						return true
+					}, nil)
+					if replaced && insertBefore(file, stmt, []ast.Stmt{decl, assign}) {
+						return p.inlineOneImpl(fset, file, off, j, suffix)
+					}
+				}
+			}
+		}
+		inlineWhy = "call is nested in an expression that cannot be hoisted safely"
+		return false
+	}
+	return false
+direct:
 	hasDefer := false
 	walkNoLit(callee.Body, func(n ast.Node) bool {
 		if _, ok := n.(*ast.DeferStmt); ok {
@@ -587,7 +686,18 @@ func (p *Prog) inlineOneImpl(fset *token.FileSet, file *ast.File, off int, j inl
 			}
 			if len(targets) > 0 {
 				if len(results) == 1 && len(targets) > 1 {
-					ok = false // return f() with multiple results
+					// return f() with multiple results: t1, t2 = f()
+					var lhs []ast.Expr
+					for _, t := range targets {
+						im := map[*ast.Ident]*ast.Ident{}
+						lhs = append(lhs, deepCopy(t, im).(ast.Expr))
+					}
+					stmts = append(stmts, &ast.AssignStmt{Lhs: lhs, Tok: token.ASSIGN, Rhs: []ast.Expr{results[0]}})
+					if ast.Stmt(rs) != lastStmt {
+						earlyReturn = true
+						stmts = append(stmts, &ast.BranchStmt{Tok: token.BREAK, Label: ast.NewIdent(label)})
+					}
+					c.Replace(&ast.BlockStmt{List: stmts})
 					return false
 				}
 				if len(results) != len(targets) {
@@ -877,4 +987,66 @@ func (p *Prog) typeText(caller *Func, t types.Type) string {
 		return ""
 	}
 	return s
+}
+
+// insertBefore inserts stmts before old in its statement list.
+func insertBefore(file *ast.File, old ast.Stmt, stmts []ast.Stmt) bool {
+	done := false
+	astutil.Apply(file, func(c *astutil.Cursor) bool {
+		if done {
+			return false
+		}
+		if c.Node() == ast.Node(old) && c.Index() >= 0 {
+			for _, s := range stmts {
+				c.InsertBefore(s)
+			}
+			done = true
+			return false
+		}
+		return true
+	}, nil)
+	return done
+}
+
+// pruneImports deletes imports that no identifier of the file refers to any
+// more. The local name of an import is its explicit name or the imported
+// package's declared name (not the last path element: go-hclog is hclog).
+func (p *Prog) pruneImports(fset *token.FileSet, file *ast.File) {
+	used := map[string]bool{}
+	ast.Inspect(file, func(n ast.Node) bool {
+		if se, ok := n.(*ast.SelectorExpr); ok {
+			if id, ok := se.X.(*ast.Ident); ok && id.Obj == nil {
+				used[id.Name] = true
+			}
+		}
+		return true
+	})
+	for _, im := range append([]*ast.ImportSpec{}, file.Imports...) {
+		path := strings.Trim(im.Path.Value, `"`)
+		name := ""
+		if im.Name != nil {
+			name = im.Name.Name
+			if name == "_" || name == "." {
+				continue
+			}
+		} else {
+			for _, pk := range p.All {
+				if ip := pk.Imports[path]; ip != nil && ip.Name != "" {
+					name = ip.Name
+					break
+				}
+			}
+			if name == "" {
+				continue // unknown: keep
+			}
+		}
+		if used[name] {
+			continue
+		}
+		if im.Name != nil {
+			astutil.DeleteNamedImport(fset, file, im.Name.Name, path)
+		} else {
+			astutil.DeleteImport(fset, file, path)
+		}
+	}
 }
